@@ -41,11 +41,20 @@ Proof. intros H. apply N.div_le_lower_bound; lia. Qed.
 (* every slot of an earlier chunk is before the cursor *)
 Lemma geo_lt cur hc hi i : cur < hc -> i < cc -> cur * cc + i < hc * cc + hi.
 Proof. intros H Hi. nia. Qed.
+(* the next ticket stays in the chunk unless it starts a new one *)
+Lemma geo_succ t : (t + 1) mod cc <> 0 -> (t + 1) / cc = t / cc.
+Proof.
+  intros H. destruct (geo_split t) as [Ht Hm].
+  destruct (N.eq_dec (t mod cc + 1) cc) as [E|E].
+  - exfalso. apply H. replace (t + 1) with ((t / cc + 1) * cc + 0) by nia. apply geo_mod. lia.
+  - replace (t + 1) with (t / cc * cc + (t mod cc + 1)) by lia. apply geo_div. lia.
+Qed.
 End Geo.
 
 (* ---------------------------------------------------------------- step inversion *)
 Ltac unf_steps :=
-  unfold p_done, c_done, p_resident, p_lock, c_lock, c_after_pub, set_ppc_at in *.
+  unfold p_closed_window, p_loop, p_done_batch, p_done, p_done_n, c_done_vals, c_done, c_done_l, p_resident,
+    p_lock, c_lock, c_after_pub, c_next, c_miss, set_ppc_at in *.
 
 (* break the step equation [H : ... = Some (s', e)] into its branches *)
 Ltac inv_step H :=
@@ -66,14 +75,28 @@ Ltac split_goal :=
   end.
 
 (* ---------------------------------------------------------------- pc projections *)
-(* the ticket a producer pc owns (between its fetch_add and its state store) *)
-Definition own_of (pc : ppc_t) : option N :=
+(* the ticket range [own_lo, own_hi) a producer pc owns (claimed by its fetch_add, state not yet stored) *)
+Definition own_lo (pc : ppc_t) : N :=
   match pc with
-  | PS4 _ t | PE1 _ t _ | PE2 _ t _ _ | PEs _ t _ _ | PE3 _ t _ _ | PW0 _ t | PW1 _ t _ => Some t
+  | PS4 _ t | PC4 _ t _ => t
+  | PE1 _ r | PE2 _ r _ | PEs _ r _ | PE3 _ r _ | PW0 _ r | PW1 _ r => rt r + rw r
+  | _ => 0
+  end.
+Definition own_hi (pc : ppc_t) : N :=
+  match pc with
+  | PS4 _ t => t + 1
+  | PC4 _ t m => t + m
+  | PE1 _ r | PE2 _ r _ | PEs _ r _ | PE3 _ r _ | PW0 _ r | PW1 _ r => rt r + rm r
+  | _ => 0
+  end.
+Definition owns (pc : ppc_t) (t : N) : Prop := own_lo pc <= t < own_hi pc.
+
+(* the payload cell of the ticket being resolved has been written: (ticket, item index) *)
+Definition wval_of (pc : ppc_t) : option (N * N) :=
+  match pc with
+  | PW1 k r => if rset r then Some (rcur r, kitem k + rw r) else None
   | _ => None
   end.
-(* the payload cell of the owned ticket has been written *)
-Definition w1_of (pc : ppc_t) : bool := match pc with PW1 _ _ true => true | _ => false end.
 (* the consumer has taken the payload of the ticket at the cursor, the state byte is still SET *)
 Definition taken (pc : cpc_t) : bool := match pc with CD5 _ true => true | _ => false end.
 
@@ -83,21 +106,33 @@ Definition code (x : tstat) : N := match x with TSet _ => sSET | TSkip => sSKIP 
 Definition dataof (tkf : N -> tstat) (pcf : nat -> ppc_t) (sq : nat -> N) (tak : bool) (hp t : N) : option val :=
   match tkf t with
   | TSet v => if tak && N.eqb t hp then None else Some v
-  | TOwn th => if w1_of (pcf th) then Some (th, sq th + 1) else None
+  | TOwn th => match wval_of (pcf th) with
+               | Some (t0, i) => if N.eqb t t0 then Some (th, sq th + 1 + i) else None
+               | None => None
+               end
   | _ => None
   end.
 
 Section Inv.
 Variables cap cc n kk : N.
 
+(* what a run in its write phase knows: there is a current ticket; the SET tickets have credit *)
+Definition RInv (hp : N) (k : kctx) (r : run) : Prop :=
+  rw r < rm r /\ rv r <= rm r /\ (rv r = 0 \/ rt r + rv r <= hp + cap) /\
+  match k with KOne _ => True | KBatch b => bsent b + rm r <= btotal b end.
+Definition resident (idf : N -> N) (t : N) : Prop := idf (ent n (cid_of cc t)) = cid_of cc t.
+
 (* what a producer pc knows (the observed values that license its next step) *)
-Definition PInv (tkf : N -> tstat) (hp ret : N) (idf : N -> N) (mv : val) (pc : ppc_t) : Prop :=
+Definition PInv (hp ret : N) (idf : N -> N) (pc : ppc_t) : Prop :=
   match pc with
-  | PE1 _ t ok | PE2 _ t ok _ | PEs _ t ok _ => ok = true -> t < hp + cap
-  | PE3 _ t ok cur => (ok = true -> t < hp + cap) /\ cur + 1 <= ret
-  | PW0 _ t => t < hp + cap /\ idf (ent n (cid_of cc t)) = cid_of cc t
-  | PW1 _ t ok => (ok = true -> t < hp + cap) /\ idf (ent n (cid_of cc t)) = cid_of cc t
-  | PN1 _ t ok | PN2 _ t ok | PN3 _ t ok => ok = true -> tkf t = TSet mv
+  | PE1 k r | PE2 k r _ | PEs k r _ => RInv hp k r
+  | PE3 k r cur => RInv hp k r /\ cur + 1 <= ret
+  | PW0 k r => RInv hp k r /\ rw r < rv r /\ resident idf (rcur r)
+  | PW1 k r => RInv hp k r /\ resident idf (rcur r)
+  | PN1 k r | PN2 k r | PN3 k r =>
+      rw r = rm r /\ rv r <= rm r /\ match k with KOne _ => True | KBatch b => bsent b + rm r <= btotal b end
+  | PB1 b | PL1 b | PC0 b | PC1 b | PC2 b _ => bsent b <= btotal b
+  | PC3 b m | PC4 b _ m => 0 < m /\ bsent b + m <= btotal b
   | _ => True
   end.
 
@@ -122,8 +157,8 @@ Record SInv (s : st) : Prop := {
   (* clause 2: ticket classes *)
   B_free : forall t, tk s t = TFree <-> gtail s <= t;
   B_done : forall t, t < hpos s -> code (tk s t) <> sEMPTY;
-  B_own : forall t th, tk s t = TOwn th <-> own_of (ppc s th) = Some t;
-  P_inv : forall th, PInv (tk s) (hpos s) (retired s) (ids s) (myval s th) (ppc s th);
+  B_own : forall t th, tk s t = TOwn th <-> owns (ppc s th) t;
+  P_inv : forall th, PInv (hpos s) (retired s) (ids s) (ppc s th);
   (* clause 3: capacity *)
   D_cap : forall t v, tk s t = TSet v -> hpos s <= t -> t < hpos s + cap;
   (* clause 4: the chunk table and the physical slots *)
